@@ -260,6 +260,11 @@ def compare(case, recs, final, reopened, final_ls, model, spec, prop):
             out.append(("impl-vs-spec", ["C04"], i,
                         f"after `{V.sx(rec['op'])[:120]}` the file decodes to {V.show_list(str, rec['decoded'])[:300]} but the database holds {s_contents[:300]}"))
             break
+        # ... and what the live database reports must be what its file holds
+        if rec["decoded"] is not None and V.show_list(str, rec["decoded"]) != got_contents and rec["out"] == s_out:
+            out.append(("impl-vs-spec", ["C04"], i,
+                        f"after `{V.sx(rec['op'])[:120]}` the file decodes to {V.show_list(str, rec['decoded'])[:300]} but the live database reports {got_contents[:300]}"))
+            break
         # results and contents vs the Spec (list-level properties own these; here they only stop the case)
         if rec["out"] != s_out or got_contents != s_contents:
             out.append(("foreign", [], i, f"list-level disagreement at op {i}: {rec['out'][:80]} vs {s_out[:80]}"))
